@@ -223,6 +223,19 @@ CHECKS["C19"] = (
     "DESIGN.md 6 (C19)",
 )
 
+CHECKS["C20"] = (
+    "model_checking",
+    "exhaustive enumeration of definition sets (all singles, ordered pairs and ordered triples over a core subset of 28 definition items) with an AST-level conformance checker of the generated stub against the loaded cstruct object",
+    "For every set the stub must be valid Python, declare every user type, alias and constant exactly once under its name and nothing the "
+    "object does not provide, give constants their values, enums their members and bases, structures their fields in order with hints that "
+    "denote the field's actual type (identity for named types, same shape for arrays and pointers, inline classes only for non-global "
+    "nested types), and matching __init__ parameters. Items cover structs, unions, nested named / inline named / anonymous members and "
+    "arrays or pointers of them, bit-fields, self pointers, enums, flags with zero/composite/mask members, alias members, anonymous enums, "
+    "typedefs of scalars, structs (several names), arrays, pointers and enums, constants of every literal kind, all built-in scalars, and "
+    "API-added aliases.",
+    "DESIGN.md 6 (C20)",
+)
+
 NOT_APPLICABLE = {}
 
 
